@@ -154,7 +154,7 @@ def r_fmt_agree(ctx: RuleCtx, col: Collector):
                     f"block lengths are packed with struct code(s) {sorted(codes)} but the file declares header_type "
                     f"{header[1]} (code '{want}'): readers mis-parse every block header")
     # block-length header: the number packed is the byte count of the *raw* (un-encoded) data block
-    for pk in packs:
+    for ipk, pk in enumerate(sorted(packs, key=lambda q: (q.lineno, q.col_offset))):
         if len(pk.args) < 2:
             continue
         val = pk.args[1]
@@ -164,7 +164,7 @@ def r_fmt_agree(ctx: RuleCtx, col: Collector):
             for d in du.defs.get(nm, []):
                 if any(isinstance(x, ast.Call) and norm(x.func).endswith("b64encode") for x in ast.walk(d)):
                     enc_names.add(nm)
-        construct = f"block length header {stmt_key(pk)}"
+        construct = f"block length header #{ipk + 1}"
         if enc_names:
             col.bad(where_of(f), f.rel, line_of(pk), construct,
                     f"the length written in front of a binary block is computed from '{sorted(enc_names)[0]}', the base64 "
@@ -177,16 +177,22 @@ def r_fmt_agree(ctx: RuleCtx, col: Collector):
     # byte order
     tests = []
     for n in ast.walk(f.node):
-        if isinstance(n, ast.IfExp) and "sys.byteorder" in norm(n.test):
+        if isinstance(n, (ast.IfExp, ast.If)) and "sys.byteorder" in norm(n.test):
             tests.append(n)
     little_prefix = little_name = None
     for t in tests:
-        is_little = "=='little'" in norm(t.test).replace('"', "'")
+        tt = norm(t.test).replace('"', "'")
+        neg = tt.startswith("not")
+        is_little = ("=='little'" in tt or "!='big'" in tt) != neg
         body, orelse = (t.body, t.orelse) if is_little else (t.orelse, t.body)
-        if isinstance(body, ast.Constant) and body.value in ("<", ">"):
-            little_prefix = body.value
-        if isinstance(body, ast.Constant) and isinstance(body.value, str) and "Endian" in body.value:
-            little_name = body.value
+        consts = [body] if isinstance(body, ast.AST) else [x for st in body for x in ast.walk(st)]
+        for cst in consts:
+            if isinstance(cst, ast.Constant) and cst.value in ("<", ">"):
+                little_prefix = cst.value
+            if isinstance(cst, ast.Constant) and isinstance(cst.value, str) and "Endian" in cst.value:
+                little_name = cst.value
+    if not tests:
+        raise AnalysisError("write_to_vti: byte-order selection on sys.byteorder not found")
     if little_prefix == "<" and little_name == "LittleEndian":
         col.ok(where_of(f), f.rel, line_of(tests[0]), "byte order declaration vs struct prefix", "little -> '<' / LittleEndian")
     else:
@@ -268,7 +274,11 @@ def r_section_agree(ctx: RuleCtx, col: Collector):
     # padding
     t = norm(f.node)
     pad_alloc = re.search(rf"np\.zeros\(3\*{selfn}\.nnodes", t) is not None
-    pad_decl = "3ifpad_to_vectorelse" in t
+    pad_flag = None
+    for n in ast.walk(f.node):
+        if isinstance(n, ast.If) and isinstance(n.test, ast.Name) and re.search(rf"np\.zeros\(3\*{selfn}\.nnodes", norm(n)):
+            pad_flag = n.test.id
+    pad_decl = pad_flag is not None and f"3if{pad_flag}else" in t
     if pad_alloc and pad_decl:
         col.ok(where_of(f), f.rel, line_of(f.node), "2-D vectors padded to 3 components", "3*nnodes values, 3 components declared")
     else:
@@ -317,6 +327,17 @@ def r_log_lockstep(ctx: RuleCtx, col: Collector):
                 isinstance(n.value.orelse, ast.Constant) and n.value.orelse.value is None:
             tags = n.targets[0].id
             tags_test = n.value.test
+    if tags is None:
+        # statement form: if <first call>: tags = [] else: tags = None
+        for n in ast.walk(f.node):
+            if isinstance(n, ast.If) and len(n.body) == 1 and len(n.orelse) == 1 and all(
+                    isinstance(b, ast.Assign) and isinstance(b.targets[0], ast.Name) for b in (n.body[0], n.orelse[0])) and \
+                    n.body[0].targets[0].id == n.orelse[0].targets[0].id:
+                a, b = n.body[0].value, n.orelse[0].value
+                if isinstance(a, ast.List) and not a.elts and isinstance(b, ast.Constant) and b.value is None:
+                    tags, tags_test = n.body[0].targets[0].id, n.test
+                elif isinstance(b, ast.List) and not b.elts and isinstance(a, ast.Constant) and a.value is None:
+                    tags, tags_test = n.body[0].targets[0].id, ast.UnaryOp(op=ast.Not(), operand=n.test)
     for n in ast.walk(f.node):
         if isinstance(n, ast.Assign) and isinstance(n.targets[0], ast.Name) and isinstance(n.value, ast.List) and \
                 n.targets[0].id != tags:
@@ -326,7 +347,8 @@ def r_log_lockstep(ctx: RuleCtx, col: Collector):
         raise AnalysisError("ScalarToFile._response: header / row lists not recognised")
     # header iff first iteration
     from .common import expand_names
-    if norm(expand_names(f.node, tags_test)) in (f"{selfn}.iter==0", f"0=={selfn}.iter"):
+    tt = norm(expand_names(f.node, tags_test))
+    if tt in (f"{selfn}.iter==0", f"0=={selfn}.iter", f"not{selfn}.iter!=0", f"not({selfn}.iter!=0)", f"notnot{selfn}.iter==0"):
         col.ok(where_of(f), f.rel, line_of(tags_test), "header collected iff first iteration", U(tags_test))
     else:
         col.bad(where_of(f), f.rel, line_of(tags_test), "header collected iff first iteration",
